@@ -84,6 +84,7 @@ type c03exp struct {
 }
 
 type c03state struct {
+	starved   bool // an execution timed out with nothing wrong on the wire: arrival counts are not judged
 	mu        sync.Mutex
 	version   int
 	keyspace  string
@@ -107,6 +108,18 @@ func (st *c03state) problem(key, what string) {
 		st.pkeys = append(st.pkeys, key)
 	}
 	st.mu.Unlock()
+}
+
+// execErr: an execution failed. A timeout with nothing wrong on the wire is the machine's doing (inconclusive).
+func (st *c03state) execErr(c *runner.Ctx, cl *fakenode.Cluster, key, what string, err error) {
+	if loadLike(err) && len(cl.BadFramesCopy()) == 0 {
+		c.Inconclusive("c03-timeout", what+err.Error())
+		st.mu.Lock()
+		st.starved = true
+		st.mu.Unlock()
+		return
+	}
+	st.problem(key, what+err.Error())
 }
 
 func valsEqual(exp []c03val, got []cqlref.BoundValue, names bool) string {
@@ -437,6 +450,10 @@ func c03case(c *runner.Ctx, i int) {
 		for _, b := range cl.BadFrames {
 			c.Violation(fmt.Sprintf("C03:malformed:v%d:handshake", version), "the spec decoder rejects a frame the driver wrote: "+clipS(b), map[string]interface{}{"version": version, "detail": b})
 		}
+		if len(cl.BadFrames) == 0 && loadLike(err) {
+			c.Inconclusive("c03-session", err.Error())
+			return
+		}
 		c.Violation(fmt.Sprintf("C03:session:v%d:cannot-connect", version), "session creation against the scripted node failed: "+err.Error(), map[string]interface{}{"bad_frames": cl.BadFrames})
 		return
 	}
@@ -478,7 +495,7 @@ func c03case(c *runner.Ctx, i int) {
 			asked = append(asked, e.stmt)
 			atomic.StoreInt64(&e.notBefore, time.Now().UnixNano()/1000)
 			if err := q.Exec(); err != nil {
-				st.problem(fmt.Sprintf("C03:query:v%d:exec-error", version), "unprepared query failed: "+err.Error())
+				st.execErr(c, cl, fmt.Sprintf("C03:query:v%d:exec-error", version), "unprepared query failed: ", err)
 			} else if r.Intn(3) == 0 {
 				c03again(c, st, e, func() error { return q.Exec() })
 			}
@@ -535,7 +552,7 @@ func c03case(c *runner.Ctx, i int) {
 			asked = append(asked, e.stmt)
 			atomic.StoreInt64(&e.notBefore, time.Now().UnixNano()/1000)
 			if err := q.Exec(); err != nil {
-				st.problem(fmt.Sprintf("C03:execute:v%d:exec-error", version), "prepared query failed: "+err.Error())
+				st.execErr(c, cl, fmt.Sprintf("C03:execute:v%d:exec-error", version), "prepared query failed: ", err)
 			} else if r.Intn(3) == 0 {
 				c03again(c, st, e, func() error { return q.Exec() })
 			}
@@ -626,7 +643,7 @@ func c03case(c *runner.Ctx, i int) {
 			asked = append(asked, "batch:"+e.stmt)
 			atomic.StoreInt64(&e.notBefore, time.Now().UnixNano()/1000)
 			if err := sess.ExecuteBatch(b); err != nil {
-				st.problem(fmt.Sprintf("C03:batch:v%d:exec-error", version), "batch failed: "+err.Error())
+				st.execErr(c, cl, fmt.Sprintf("C03:batch:v%d:exec-error", version), "batch failed: ", err)
 			} else if r.Intn(3) == 0 {
 				c03again(c, st, e, func() error { return sess.ExecuteBatch(b) })
 			}
@@ -636,7 +653,7 @@ func c03case(c *runner.Ctx, i int) {
 	// every asked request must have reached the node exactly once
 	st.mu.Lock()
 	for _, k := range asked {
-		if e := st.exp[k]; e != nil && e.seen != 1 && e.seen != e.wantSeen {
+		if e := st.exp[k]; e != nil && e.seen != 1 && e.seen != e.wantSeen && !st.starved {
 			st.problems = append(st.problems, fmt.Sprintf("request %q reached the node %d times", k, e.seen))
 			st.pkeys = append(st.pkeys, fmt.Sprintf("C03:%s:v%d:arrivals", e.op, version))
 		}
@@ -764,6 +781,13 @@ func c03again(c *runner.Ctx, st *c03state, e *c03exp, exec func() error) {
 	atomic.StoreInt64(&e.notBefore, time.Now().UnixNano()/1000)
 	c.Add("objects_executed_again", 1)
 	if err := exec(); err != nil {
+		if loadLike(err) {
+			c.Inconclusive("c03-timeout", "second execution of the same object failed: "+err.Error())
+			st.mu.Lock()
+			st.starved = true
+			st.mu.Unlock()
+			return
+		}
 		st.problem(fmt.Sprintf("C03:%s:v%d:exec-error", e.op, st.version), "second execution of the same object failed: "+err.Error())
 	}
 }
